@@ -122,12 +122,12 @@ def install_openai(I, prog, env, replies, log):
         if len(user) == 1:
             ub = as_sstr(I2, user[0].f[0].f[0]).b
             pre = tuple(b'CONDITION:\n')
-            if len(ub) > len(pre) and ub[:len(pre)] == pre and isinstance(ub[len(pre)], int):
-                tag = ub[len(pre)]
+            if len(ub) > len(pre) and ub[:len(pre)] == pre:
+                tag = I2.concretize(ub[len(pre)], 'condition tag')
             entry['user'] = ub
         entry['tag'] = tag
         log.append(entry)
-        spec = replies.get(tag, ('err',))
+        spec = replies.get(tag, replies.get('default', ('err',)))
         kind = spec[0]
         if kind == 'err':
             return ReadyFut(Err(Opaque('OpenAIError', 'transport / status / decode error')))
